@@ -59,6 +59,7 @@ func init() {
 	vkit.Register("stores", vkit.N{Quick: 600, Thorough: 14000}, genStoreCase, runStoreCase)
 	vkit.Register("regions", vkit.N{Quick: 900, Thorough: 26000}, genRegionCase, runRegionCase)
 	vkit.Register("bulk", vkit.N{Quick: 8, Thorough: 64}, genBulkCase, runRegionCase)
+	vkit.Register("sized", vkit.N{Quick: 8, Thorough: 64}, genSizedCase, runRegionCase)
 }
 
 // ---------------------------------------------------------------- id pools
@@ -484,6 +485,7 @@ type RCase struct {
 	Slots   int       `json:"slots"`
 	VMixed  bool      `json:"vmixed,omitempty"`
 	Big     []BigSlot `json:"big,omitempty"`
+	KeyPad  int       `json:"keypad,omitempty"` // every key is padded by KeyPad/2 .. KeyPad*3/2 bytes (by slot)
 	Ops     []ROp     `json:"ops"`
 	BudgetW int       `json:"budgetw,omitempty"` // budget = heaviest window of this many consecutive items
 	Slack   int       `json:"slack,omitempty"`
@@ -658,6 +660,31 @@ func genBulkCase(t *rapid.T) RCase {
 	return c
 }
 
+// sizedShapes: (regions, key pad) for the leveldb size dimension; the bytes of the
+// first full page (up to 10000 records of key + marshalled meta, two keys per record)
+// land below 1 MiB, between 1 and 4 MiB, and above 4 MiB.
+var sizedShapes = [][2]int{
+	{900, 64}, {2200, 64}, // < 1 MiB
+	{5000, 100}, {3000, 400}, {3000, 600}, {5000, 300}, // 1-4 MiB
+	{2200, 1024}, {3000, 1024}, {5000, 500}, {2100, 2048}, {3000, 2048}, {1500, 3000}, {10050, 250}, {2500, 1024}, {4000, 700}, {2050, 1100}, // > 4 MiB
+}
+
+// genSizedCase: leveldb region storage with thousands of regions whose keys are
+// long enough that one page of the load is a few MiB.
+func genSizedCase(t *rapid.T) RCase {
+	var c RCase
+	c.Backend = "leveldb"
+	sh := pick(t, "shape", sizedShapes)
+	c.N, c.KeyPad = sh[0], sh[1]
+	c.Slots = c.N + 2
+	c.VMixed = rapid.Bool().Draw(t, "vmixed")
+	news := genROps(t, &c, 4)
+	c.IDs, c.ExclMax = genIDs(t, c.N+news, false)
+	c.Enc = pick(t, "enc", []int{0, 0, 0, 2})
+	c.Prune = rapid.Bool().Draw(t, "prune")
+	return c
+}
+
 // ---------------------------------------------------------------- regions: fixture
 
 func slotKey(c *RCase, slot int, isEnd bool) []byte {
@@ -673,9 +700,11 @@ func slotKey(c *RCase, slot int, isEnd bool) []byte {
 	k := fmt.Sprintf("k%07d", slot)
 	for _, b := range c.Big {
 		if b.Slot == slot {
-			k += strings.Repeat("p", b.Pad)
-			break
+			return []byte(k + strings.Repeat("p", b.Pad))
 		}
+	}
+	if c.KeyPad > 0 {
+		k += strings.Repeat("q", c.KeyPad/2+(slot*7919)%(c.KeyPad+1))
 	}
 	return []byte(k)
 }
@@ -1547,6 +1576,26 @@ func runRegionCase(c RCase) (info vkit.Info, err error) {
 	if e := flushAndCheck("final load"); e != nil {
 		return info, e
 	}
+	pageBytesClass := ""
+	if c.KeyPad > 0 {
+		// bytes of the first page of that load: up to 10000 records in id order
+		ids := sortedIDs(m.disk)
+		if len(ids) > 10000 {
+			ids = ids[:10000]
+		}
+		total := 0
+		for _, id := range ids {
+			total += len("raft/r/") + 20 + m.disk[id].Size()
+		}
+		switch {
+		case total < 1<<20:
+			pageBytesClass = "<1MiB"
+		case total <= 4<<20:
+			pageBytesClass = "1-4MiB"
+		default:
+			pageBytesClass = ">4MiB"
+		}
+	}
 
 	// ------------------------------------------------------------ pruning
 	if c.Prune {
@@ -1765,6 +1814,11 @@ func runRegionCase(c RCase) (info vkit.Info, err error) {
 		}
 	}
 
+	bigPage := false
+	if c.KeyPad > 0 {
+		info.Class("first-page-bytes:" + pageBytesClass)
+		bigPage = pageBytesClass != "<1MiB"
+	}
 	info.ClassIf(multiPage, "multi-page")
 	info.ClassIf(halved, "page-size-halved")
 	info.ClassIf(halvedLate, "page-size-halved-after-progress")
@@ -1773,7 +1827,7 @@ func runRegionCase(c RCase) (info vkit.Info, err error) {
 	info.ClassIf(leftoverSeen, "leftover-resurrected")
 	info.ClassIf(len(c.Big) > 0, "large-keys")
 	info.ClassIf(c.N >= 5000, "bulk")
-	info.NonTrivial = multiPage || hasTop || pruned > 0
+	info.NonTrivial = multiPage || hasTop || pruned > 0 || bigPage
 	if info.NonTrivial && (c.N >= 1000 || len(c.IDs.Rand) > 40) {
 		info.Sample = map[string]interface{}{"backend": c.Backend, "n": c.N, "ids": c.IDs.Mode, "ops": len(c.Ops), "prune": c.Prune, "big": c.Big,
 			"digest": caseDigest(&c)}
@@ -1805,7 +1859,7 @@ func dedupe(info *vkit.Info) {
 // caseDigest makes samples of big cases distinct without storing them.
 func caseDigest(c *RCase) string {
 	var b bytes.Buffer
-	fmt.Fprintf(&b, "%v|%d|%d|%v|%v|%d|%d|%v|%v|%v|%d", c.IDs, c.N, c.Slots, c.VMixed, c.Big, c.BudgetW, c.Slack, c.Prune, c.Ops, c.Load, c.Enc)
+	fmt.Fprintf(&b, "%v|%d|%d|%v|%v|%d|%d|%v|%v|%v|%d|%d", c.IDs, c.N, c.Slots, c.VMixed, c.Big, c.BudgetW, c.Slack, c.Prune, c.Ops, c.Load, c.Enc, c.KeyPad)
 	h := uint64(14695981039346656037)
 	for _, x := range b.Bytes() {
 		h ^= uint64(x)
